@@ -148,6 +148,7 @@ func c03(c *Ctx) {
 	defer c03writesDecidedFromIndex(c)
 	defer c03pairedListsAgree(c)
 	defer c03remoteAndLocalAddAgree(c)
+	c03flagWritesSelectFromTheIndexRead(c)
 	P, R := c.P, c.R
 	R.Explain("R03.1", "T-SQL (engine of C08) restricted to the statements reachable from the message commands (Mailbox.Append/Copy/Move/Store/Expunge/Fetch, State.Create/Delete/Rename): valid against the schema and placeholder count = bound arguments for every batch size (both sides of the chunk limit).")
 	R.Explain("R03.2", "transaction shape: on any path of Mailbox.Copy/Move/Store/Expunge and State.Create/Delete/Rename at most one mutating commit wrapper (stateDBWrite/stateDBWriteResult) is executed, so a command answered NO/BAD is one rolled-back transaction.")
@@ -842,4 +843,93 @@ func c03remoteAndLocalAddAgree(c *Ctx) {
 		}
 	}
 	R.Min("R03.10", "functions adding both remotely and locally", n, 1)
+}
+
+// c03flagWritesSelectFromTheIndexRead (R03.11): which messages a flag is written to is decided over all the rows read.
+func c03flagWritesSelectFromTheIndexRead(c *Ctx) {
+	P, R := c.P, c.R
+	R.Explain("R03.11", "STORE changes every message of the set: where internal/state builds the id list of a per-flag index write (tx.AddFlagToMessages / tx.RemoveFlagFromMessages) by picking ids out of message-flag rows, the rows it ranges over are the result of tx.GetMessagesFlags for the request - every origin of the ranged slice is that read, not a narrowed copy (a filter applied beforehand for all flags at once).  The per-flag test inside the loop is what decides; a pre-filter that keeps only the messages carrying all (or none) of the named flags leaves the flags of the others unchanged in the index although the command named them.")
+	n := 0
+	for _, f := range c.funcsInPkg("internal/state") {
+		for _, cs := range engine.Calls(f) {
+			cc := cs.Common()
+			if cs.Instr.Parent() != f || !cc.IsInvoke() || !engine.IsNamed(cc.Value.Type(), "db", "Transaction") {
+				continue
+			}
+			if m := cc.Method.Name(); m != "AddFlagToMessages" && m != "RemoveFlagFromMessages" {
+				continue
+			}
+			var ids ssa.Value
+			for _, a := range cc.Args {
+				if sl, ok := a.Type().Underlying().(*types.Slice); ok && engine.IsNamed(sl.Elem(), "imap", "InternalMessageID") {
+					ids = a
+				}
+			}
+			if ids == nil {
+				continue
+			}
+			// the slices whose elements' ID field is appended
+			var ranged []ssa.Value
+			engine.Backward(ids, engine.FlowOpts{Loads: true, AppendBase: true, AppendElems: true}, func(x ssa.Value) bool {
+				var fx ssa.Value
+				switch t := x.(type) {
+				case *ssa.Field:
+					fx = t.X
+				case *ssa.UnOp:
+					if fa, ok := t.X.(*ssa.FieldAddr); ok {
+						fx = fa.X
+					}
+				}
+				if fx == nil {
+					return true
+				}
+				// fx: element of a slice of db.MessageFlagSet (value loaded from, or address into, the slice)
+				cands := []ssa.Value{fx}
+				if al, ok := fx.(*ssa.Alloc); ok { // the range variable kept in a cell
+					cands = nil
+					for _, st := range engine.StoresTo(al) {
+						cands = append(cands, st.Val)
+					}
+				}
+				hit := false
+				for _, cv := range cands {
+					if u, ok := cv.(*ssa.UnOp); ok {
+						cv = u.X
+					}
+					if ia, ok := cv.(*ssa.IndexAddr); ok {
+						if sl, ok := ia.X.Type().Underlying().(*types.Slice); ok && engine.IsNamed(sl.Elem(), "db", "MessageFlagSet") {
+							ranged = append(ranged, ia.X)
+							hit = true
+						}
+					}
+				}
+				return !hit
+			})
+			for _, rs := range ranged {
+				n++
+				bad := ""
+				any := false
+				engine.Backward(rs, engine.FlowOpts{Loads: true}, func(x ssa.Value) bool {
+					switch t := x.(type) {
+					case *ssa.Extract:
+						if call, ok := t.Tuple.(*ssa.Call); ok && call.Call.IsInvoke() && call.Call.Method.Name() == "GetMessagesFlags" {
+							any = true
+							return false
+						}
+						bad = "a result of " + t.Tuple.String()
+						return false
+					case *ssa.Call:
+						bad = "the result of " + t.Call.Value.String() + " (" + P.Pos(t.Pos()) + ")"
+						return false
+					case *ssa.Parameter:
+						bad = "parameter " + t.Name()
+						return false
+					}
+					return true
+				})
+				R.Check(bad == "" && any, "R03.11", c.name(f)+"|"+cc.Method.Name()+" picks from the rows read", P.Pos(cs.Pos()), "the ids are picked out of the unfiltered result of tx.GetMessagesFlags", "the ids written to are picked out of something other than the rows tx.GetMessagesFlags returned for the request ("+bad+"): messages of the set that a pre-filter dropped keep their flags in the index although the command changes them")
+			}
+		}
+	}
+	R.Min("R03.11", "per-flag writes whose ids are picked out of message-flag rows", n, 2)
 }
